@@ -34,6 +34,10 @@ type c08cCase struct {
 	// drawn start row): scans discover regions too, and walk from region to region by their cached keys
 	WarmScan  string `json:"warm_scan,omitempty"`
 	ScanStart evid.B `json:"scan_start,omitempty"`
+	// Listing: the first thing the (cold) client does is Client.CacheRegions on a table whose hbase:meta listing
+	// itself holds an OLDER region (id OldID) next to the newer ones over regions From..To (a split parent
+	// still listed beside its daughters): the newest wins, whatever the order and the state of the cache
+	Listing bool `json:"listing,omitempty"`
 }
 
 func c08cRun(c c08cCase) Outcome {
@@ -88,6 +92,35 @@ func c08cInBubble(c c08cCase) (out Outcome) {
 		drainClient()
 		cl.Stop()
 	}()
+	if c.Listing {
+		regs := cl.TableRegions("t")
+		from, to := c.From%len(regs), c.To%len(regs)
+		if from > to {
+			from, to = to, from
+		}
+		older := &sim.Region{Table: "t", Start: regs[from].Start, Stop: regs[to].Stop, ID: uint64(c.OldID), Addr: regs[from].Addr}
+		older.Name = sim.RegionName("t", older.Start, older.ID, false)
+		cl.Lock()
+		cl.Regions = append(cl.Regions, older)
+		cl.Unlock()
+		if err := client.CacheRegions([]byte("t")); err != nil {
+			return viol("harness", "CacheRegions: %v", err)
+		}
+		synctest.Wait()
+		if o := c08cNoOverlap(client); o.Sig != "" {
+			o.Msg += fmt.Sprintf(" after CacheRegions on a cold client; hbase:meta lists %q (id %d) beside the newer regions of its range", older.Name, c.OldID)
+			return o
+		}
+		names, _ := cachedNames(client, "t")
+		for _, n := range names {
+			if n == string(older.Name) {
+				return viol("older-region-admitted", "hbase:meta lists %q (id %d) beside newer regions of its range; after CacheRegions the cache holds it: %v", older.Name, c.OldID, names)
+			}
+		}
+		out.NonTrivial = true
+		out.Labels = append(out.Labels, "listing_with_an_older_overlapping_region")
+		return out
+	}
 	for i, k := range c.Warm {
 		if err, cerr := doOp(client, context.Background(), "t", opSpec{Kind: "get", Key: k, Marker: fmt.Sprintf("mkw%d", i)}); err != nil || cerr != nil {
 			return viol("harness", "warm-up: %v %v", err, cerr)
@@ -247,7 +280,7 @@ func TestC08_ClientDiscovery(t *testing.T) {
 			"(cached) by gets and optionally by a forward or reversed whole-table scan - after which every cached region must have the name and the range hbase:meta listed, and none overlap; then hbase:meta lists ONE older region (id below 1000) over the ranges of 1..n neighbouring regions (a table "+
 			"restored from a snapshot), optionally all connections break, and rows inside and around that range are requested with a "+
 			"deadline. Oracle on the client's cache (hook VerifCachedRegions): the older region is not admitted while it overlaps a "+
-			"newer cached region, the newer cached regions stay cached and alive, no two cached regions overlap. Non-trivial = the "+
+			"newer cached region, the newer cached regions stay cached and alive, no two cached regions overlap. Or (listing): the cold client's first act is CacheRegions while the listing itself holds the older region beside the newer ones - same oracle. Non-trivial = the "+
 			"older region overlaps at least one cached region; distinct by case hash")
 	Drive(t, rec, true, func(t *rapid.T) c08cCase {
 		var c c08cCase
@@ -270,6 +303,7 @@ func TestC08_ClientDiscovery(t *testing.T) {
 			}
 		}
 		c.Kill = rapid.Bool().Draw(t, "kill")
+		c.Listing = rapid.IntRange(0, 4).Draw(t, "listing") == 0
 		c.WarmScan = rapid.SampledFrom([]string{"", "scan", "rscan", "rscan"}).Draw(t, "warmscan")
 		if c.WarmScan == "rscan" {
 			c.ScanStart = append(evid.B{}, genKeyFor(t, lay)...)
